@@ -63,7 +63,8 @@ def _grid(rng, dim):
         b = np.asarray(spec["bounds"], float)
         h = (b[:, 1] - b[:, 0]) / np.asarray(spec["shape"])
         h = h * rng.uniform(0.8, 1.25, dim)
-        spec["bounds"] = [[float(b[i, 0]), float(b[i, 0] + np.round(h[i], 4) * spec["shape"][i])] for i in range(dim)]
+        u = spec.get("unit", 1.0)
+        spec["bounds"] = [[float(b[i, 0]), float(b[i, 0] + np.round(h[i] / u, 4) * u * spec["shape"][i])] for i in range(dim)]
         return spec
     if fam in ("polar", "sph"):
         return geom.rand_sym_spec(rng, fam, nmin=10, nmax=32, hmin=0.4, hmax=2.0)
